@@ -423,7 +423,9 @@ def finish(ctx, theorems, axioms, checker_cmd, level='proof', rule='', exhaustiv
     cov.update(ctx.extra)
     ev = dict(property_id=ctx.prop, tier=ctx.tier, seed=ctx.seed, level=level, coverage=cov,
               assumptions=TRUSTED_BASE + ctx.assumptions, wall_s=round(wall, 2), violations=len(real))
-    with open(os.path.join(EVID, f'{ctx.prop}.json'), 'w') as f:
+    # a --no-build run (debugging: proofs neither rebuilt nor audited) must not overwrite the evidence of a full run
+    ev_path = os.path.join(EVID, f'{ctx.prop}.json') if not getattr(ctx, 'no_build', False) else os.path.join('/tmp', f'evidence-no-build-{ctx.prop}.json')
+    with open(ev_path, 'w') as f:
         json.dump(ev, f, indent=1, default=str)
     if ctx.driver:
         ctx.driver.close()
